@@ -107,7 +107,7 @@ def cooperate_locks(pkgdir):
 
 
 class Sched:
-    def __init__(self, bodies, choices, pkg, visible=None):
+    def __init__(self, bodies, choices, pkg, visible=None, opcodes=False):
         self.bodies = bodies
         self.n = len(bodies)
         self.sems = [threading.Semaphore(0) for _ in bodies]
@@ -121,6 +121,7 @@ class Sched:
         self.pkg = pkg
         self.visible = visible   # set of (filename, function name) or None = every line is visible
         self.blocked = {}        # thread index -> lock it waits for (cooperative locks only)
+        self.opcodes = opcodes   # also switch between the bytecodes of one line, inside visible functions
         self.tls = threading.local()
 
     def pick(self, me, vis):
@@ -169,15 +170,27 @@ class Sched:
     def tracer(self, me):
         visible = self.visible
 
+        opcodes = self.opcodes
+
         def local(frame, event, arg):
             if event == 'line':
                 code = frame.f_code
                 vis = True if visible is None else ((code.co_filename, code.co_name) in visible)
                 self.point(me, vis)
+            elif event == 'opcode':
+                self.point(me, True)
+            elif event == 'call' and opcodes:
+                code = frame.f_code
+                if visible is not None and (code.co_filename, code.co_name) in visible:
+                    frame.f_trace_opcodes = True
             return local
 
         def glob(frame, event, arg):
-            return local if frame.f_code.co_filename.startswith(self.pkg) else None
+            if not frame.f_code.co_filename.startswith(self.pkg):
+                return None
+            if opcodes and visible is not None and (frame.f_code.co_filename, frame.f_code.co_name) in visible:
+                frame.f_trace_opcodes = True
+            return local
         return glob
 
     def worker(self, i):
